@@ -95,8 +95,12 @@ func (qfs QUICFrames) build(cryptoData []byte, baseOffset uint64) (payload []byt
 	for _, frame := range qfs {
 		var frameBytes []byte
 		if offset, length, cryptoOK := frame.CryptoFrameInfo(); cryptoOK {
-			lengthOffset := offset - lowestOffset
-			if length == 0 {
+			// A fixed layout describes the first flight. It is also applied to every later
+			// Initial packet (a PTO probe, a retransmission, the tail of a ClientHello that
+			// spans datagrams), whose share of the CRYPTO stream can be shorter than the
+			// layout or empty: never read or announce more than cryptoData holds.
+			lengthOffset := min(offset-lowestOffset, len(cryptoData))
+			if length == 0 || length > len(cryptoData)-lengthOffset {
 				// calculate length: from offset to the end of cryptoData
 				length = len(cryptoData) - lengthOffset
 			}
